@@ -618,14 +618,14 @@ var c18Canaries = []Canary{
 // comes before the action's headers are applied (defaults), or is guarded by a test that the request does not
 // carry that header yet.
 var c18ClientHeaders = map[string]string{
-	"(*tq.basicDownloadAdapter).download:Range":             "byte range of a resumed download (the client's own request parameter)",
-	"(*tq.basicUploadAdapter).DoTransfer:Content-Length":    "length of the object, only when the action did not ask for chunked encoding",
-	"(*tq.tusUploadAdapter).DoTransfer:Tus-Resumable":       "tus protocol version",
-	"(*tq.tusUploadAdapter).DoTransfer:Upload-Offset":       "tus protocol offset",
-	"(*tq.tusUploadAdapter).DoTransfer:Content-Type":        "tus protocol media type",
-	"(*tq.tusUploadAdapter).DoTransfer:Content-Length":      "tus protocol: remaining length",
-	"tq.verifyUpload:Content-Type":                          "default, set before the verify action's own headers are applied",
-	"tq.verifyUpload:Accept":                                "default, set before the verify action's own headers are applied",
+	"(*tq.basicDownloadAdapter).download:Range":          "byte range of a resumed download (the client's own request parameter)",
+	"(*tq.basicUploadAdapter).DoTransfer:Content-Length": "length of the object, only when the action did not ask for chunked encoding",
+	"(*tq.tusUploadAdapter).DoTransfer:Tus-Resumable":    "tus protocol version",
+	"(*tq.tusUploadAdapter).DoTransfer:Upload-Offset":    "tus protocol offset",
+	"(*tq.tusUploadAdapter).DoTransfer:Content-Type":     "tus protocol media type",
+	"(*tq.tusUploadAdapter).DoTransfer:Content-Length":   "tus protocol: remaining length",
+	"tq.verifyUpload:Content-Type":                       "default, set before the verify action's own headers are applied",
+	"tq.verifyUpload:Accept":                             "default, set before the verify action's own headers are applied",
 }
 
 func c18ActionHeadersWin(c *Ctx) {
